@@ -15,6 +15,7 @@ import (
 	"github.com/oauth2-proxy/oauth2-proxy/v7/verifx/explore"
 	"github.com/oauth2-proxy/oauth2-proxy/v7/verifx/sched"
 	"github.com/oauth2-proxy/oauth2-proxy/v7/verifx/vrt"
+	"golang.org/x/crypto/bcrypt"
 )
 
 // C20 — credential and allow-list files reload atomically and race-free (SCHED).
@@ -50,7 +51,8 @@ type c20Htpasswd struct {
 	files map[string]string
 }
 
-func c20HtVersions() (versions []*c20Version, queries []string) {
+func c20HtVersions(bcryptAlice ...bool) (versions []*c20Version, queries []string) {
+	useBcrypt := len(bcryptAlice) == 0 || bcryptAlice[0]
 	queries = []string{"alice:pw1", "alice:pwX", "bob:pw2", "carol:pw3"}
 	mk := func(name string, users map[string]string, extra string, ok bool) *c20Version {
 		var names []string
@@ -60,7 +62,13 @@ func c20HtVersions() (versions []*c20Version, queries []string) {
 		sort.Strings(names)
 		var b strings.Builder
 		for _, u := range names {
-			fmt.Fprintf(&b, "%s:%s\n", u, shaEntry(users[u]))
+			if u == "alice" && useBcrypt {
+				// one user has bcrypt entries (minimum cost): the comparison happens outside the
+				// lock and takes the slow path of Validate
+				fmt.Fprintf(&b, "%s:%s\n", u, c20Bcrypt(users[u]))
+			} else {
+				fmt.Fprintf(&b, "%s:%s\n", u, shaEntry(users[u]))
+			}
 		}
 		b.WriteString(extra)
 		t := map[string]bool{}
@@ -81,6 +89,20 @@ func c20HtVersions() (versions []*c20Version, queries []string) {
 		mk("bad-entry", map[string]string{"alice": "pwX", "carol": "pw3"}, "zed:plaintext\n", false),
 	}
 	return
+}
+
+var c20BcryptCache = map[string]string{}
+
+func c20Bcrypt(pw string) string {
+	if h, ok := c20BcryptCache[pw]; ok {
+		return h
+	}
+	b, err := bcrypt.GenerateFromPassword([]byte(pw), bcrypt.MinCost)
+	if err != nil {
+		panic(err)
+	}
+	c20BcryptCache[pw] = string(b)
+	return string(b)
 }
 
 func (h *c20Htpasswd) write(v *c20Version) {
@@ -438,13 +460,17 @@ func c20Scenarios(quick bool, queries map[string][]string) []c20Scenario {
 		if !quick {
 			pairs = append(pairs, [2][]int{{1, 3}, {2, 4}}, [2][]int{{4}, {4, 1}}, [2][]int{{2, 1}, {3}})
 		}
+		subj4 := subj
+		if subj == "htpasswd" && quick {
+			subj4 = "htpasswd-sha"
+		}
 		for _, p := range pairs {
-			out = append(out, c20Scenario{Subject: subj, Reloaders: [][]int{p[0], p[1]}, Validators: c20Copy(vals2)})
+			out = append(out, c20Scenario{Subject: subj4, Reloaders: [][]int{p[0], p[1]}, Validators: c20Copy(vals2)})
 		}
 		// three validators, one validation each plus one with two
 		vals3 := [][]string{{nq[2]}, {nq[1], nq[0]}, {nq[3]}}
 		for _, s := range [][]int{{3}, {2}, {1, 2}, {5, 3}} {
-			out = append(out, c20Scenario{Subject: subj, Reloaders: [][]int{s}, Validators: c20Copy(vals3)})
+			out = append(out, c20Scenario{Subject: subj4, Reloaders: [][]int{s}, Validators: c20Copy(vals3)})
 		}
 		if !quick {
 			out = append(out, c20Scenario{Subject: subj, Reloaders: [][]int{{3, 2}, {1}}, Validators: c20Copy(vals3)})
@@ -462,13 +488,23 @@ func c20Copy(v [][]string) [][]string {
 }
 
 type c20Env struct {
-	ht       *c20Htpasswd
+	ht, hts  *c20Htpasswd
 	em       *c20Emails
 	htV, emV []*c20Version
+	htsV     []*c20Version
 	htQ, emQ []string
 }
 
 func (e *c20Env) get(subject string) (c20Inst, []*c20Version, []string) {
+	if subject == "htpasswd-sha" {
+		// all entries {SHA}: used for the 4-thread scenarios (a bcrypt comparison costs ~0.5 ms
+		// per validation, too much for their execution counts in the quick tier)
+		if e.hts == nil {
+			e.htsV, e.htQ = c20HtVersions(false)
+			e.hts = newC20Htpasswd(e.htsV[0])
+		}
+		return e.hts, e.htsV, e.htQ
+	}
 	if subject == "htpasswd" {
 		if e.ht == nil {
 			e.htV, e.htQ = c20HtVersions()
